@@ -87,6 +87,7 @@ func TestC11(t *testing.T) {
 	dataAndDuration(t, r)
 	r.Require("data_delivered_up_to_limit", 100)
 	r.Require("data_payload_above_limit", 100)
+	r.Require("data_payload_above_limit_beside_a_sibling_relay_with_wider_limits", 30)
 	r.Require("data_payload_equals_limit", 50)
 	r.Require("dur_traffic_until_deadline", 10)
 }
